@@ -434,7 +434,11 @@ class Optic:
         self.surface_group.trace(rays)
 
         if isinstance(rays, PolarizedRays):
+            # the polarization matrices carry only what acts on the field;
+            # keep the scalar losses (apertures, absorption, simple coatings)
+            scalar_intensity = rays.i.copy()
             rays.update_intensity(self.polarization_state)
+            rays.i = rays.i * scalar_intensity
 
         # update ray intensity
         self.surface_group.intensity[-1, :] = rays.i
